@@ -161,6 +161,8 @@ func (in *EVMInterpreter) Run(contract *Contract, input []byte, readOnly bool) (
 		returnRStack(returns)
 	}()
 	contract.Input = input
+	verifFrameEnter(in, contract)
+	defer verifFrameExit(in, contract, mem, &err)
 
 	defer func() {
 		if err != nil {
@@ -188,6 +190,7 @@ func (in *EVMInterpreter) Run(contract *Contract, input []byte, readOnly bool) (
 		// Get the operation from the jump table and validate the stack to ensure there are
 		// enough stack items available to perform the operation.
 		op = contract.GetOp(pc)
+		verifStep(in, contract, pc, op, stack, mem)
 		operation := in.jumpTable[op]
 		if operation == nil {
 			return nil, nil, &ErrInvalidOpCode{opcode: op}
